@@ -1,3 +1,140 @@
+/-
+  C06 — entry/exit, loop, yield, return and error meta-events bracket every path.
+
+  On model M2 (Props/C01 describes the model and its ties).  In the reference semantics the brackets are
+  part of the *shape* of the semantics, so they hold on every path by construction; the theorem that carries
+  them to the real rewritten code is the refinement:
+  * `C06_rewritten_has_reference_events`: the events recorded by running the rewritten function are those of
+    the reference semantics (every core function, capture set, host, input, generator script).
+  Shape of the reference semantics:
+  * `C06_exit_on_every_way_out`: when `#exit` is captured the activation is `try: … finally: #exit`, and a
+    `finally` part is run after EVERY non-abandoned outcome of the body — return, fall-through, exception,
+    generator closed (`C06_finally_always_runs`);
+  * `C06_error_exactly_on_exception`: the `#error` event is delivered, with the exception, exactly when the
+    body ends by raising (`tryExcept` only enters its handler on `exc`);
+  * `C06_loop_iteration_bracketed`: an iteration is `try: #loop_x…; rebind targets; body finally: #endloop_x…`,
+    so break / continue / return / raise inside it all pass through the end markers;
+  * `C06_yield_then_receive`: a `yield` is `#yield` event, suspension, `#receive` event, in that order; when
+    the driver throws or closes instead of sending, there is no `#receive`.
+  * `C06_return_value_event`: `return e` reports the value through `#value` and returns the answer; falling
+    off the end is `return None` (`bodyWithReturn`).
+  Not proved here: counting statements over whole runs ("exactly once per activation") — the stream grammar
+  oracle of the check explores them.  An abandoned activation (a closed generator that yields again) gets no
+  `#exit`: Python never resumes it.
+-/
+import PteraModel.Proofs.PyLiteSpec
 namespace Ptera.Props.C06
-theorem C06_placeholder : True := trivial
+open Ptera.Py Ptera.Sem
+
+variable {W HS : Type}
+
+theorem C06_rewritten_has_reference_events (host : Host W HS) (hh : HostSpec host) (cfg : Cfg) (f : FunDef)
+    (fuel : Nat) (hf : coreF f = true) (st0 : St W HS) (hinit : ∀ x ∈ (collect f).external, st0.loc x = none) :
+    (runInstr (ctxOf host cfg f fuel).envI fuel (instrument cfg f) st0).1
+      = (runRef (ctxOf host cfg f fuel).envR fuel f st0).1
+    ∧ (runInstr (ctxOf host cfg f fuel).envI fuel (instrument cfg f) st0).2.hs
+      = (runRef (ctxOf host cfg f fuel).envR fuel f st0).2.hs :=
+  let h := instrument_refines host cfg f fuel hf (libSpec_of_host host hh cfg f fuel hf) st0 hinit
+  ⟨h.1, h.2.hs⟩
+
+/-- with `#exit` captured, the activation is a `try … finally` whose final part is the `#exit` event -/
+theorem C06_exit_on_every_way_out (env : Env W HS) (cfg : Cfg) (henv : env.hk = some cfg) (fuel : Nat) (f : FunDef)
+    (hexit : shouldInstr cfg "#exit" ["exit"] = true) :
+    ∃ body : Exec W HS, runRef env fuel f =
+      tryFinally body (stepM (hookMetas env (some exitAnn) ["#exit"]) fun _ => done .normal) := by
+  unfold runRef
+  simp only [henv, hexit, Bool.not_true, Bool.and_false, Bool.false_eq_true, if_false]
+  exact ⟨_, rfl⟩
+
+/-- a `finally` part runs after every outcome of the body that is not an abandoned activation, and the
+    outcome of the body stands unless the `finally` part itself ends otherwise -/
+theorem C06_finally_always_runs (body fin : Exec W HS) (st : St W HS) (h : ctlFatal (body st).1 = false) :
+    tryFinally body fin st =
+      (match fin (body st).2 with
+       | (.normal, st2) => ((body st).1, st2)
+       | (c', st2) => (c', st2)) := by
+  unfold Ptera.Sem.tryFinally
+  rcases hb : body st with ⟨c, st1⟩
+  rw [hb] at h
+  simp only at h
+  simp only [h, Bool.false_eq_true, if_false]
+  rcases fin st1 with ⟨c2, st2⟩
+  cases c2 <;> rfl
+
+/-- `#error` is delivered exactly when the body ends by raising (and is not abandoned) -/
+theorem C06_error_exactly_on_exception (body : Exec W HS) (handler : Val → Exec W HS) (st : St W HS) :
+    tryExcept body handler (done .normal) st =
+      (match body st with
+       | (.exc e, st1) => if isFatal e then (.exc e, st1) else handler e st1
+       | (c, st1) => (c, st1)) := by
+  unfold tryExcept
+  rcases body st with ⟨c, st1⟩
+  cases c <;> rfl
+
+/-- the `#error` event carries the exception, and the exception goes on -/
+theorem C06_error_event (env : Env W HS) (cfg : Cfg) (henv : env.hk = some cfg)
+    (herr : shouldInstr cfg "#error" [] = true) (e : Val) :
+    errorHook env e = stepM (interactSem env "#error" .noneV (annValOpt env none) e false) fun _ => done (.exc e) := by
+  unfold errorHook
+  simp [henv, herr]
+
+/-- one iteration of a `for` loop in the reference semantics -/
+theorem C06_loop_iteration_bracketed (env : Env W HS) (fuel : Nat) (t : Target) (it : Expr) (b o : List Stmt) :
+    execS env fuel (.for t it b o) =
+      stepM (do let v ← evalE env it; liftW (env.host.iter v)) fun items =>
+        forLoop items
+          (fun item => stepM (storeT env t item) fun _ =>
+            tryFinally
+              (stepM (do hookMetas env none ((loopVars t).map ("#loop_" ++ ·)); postBind env t.names) fun _ =>
+                execB env fuel b)
+              (stepM (hookMetas env none ((loopVars t).map ("#endloop_" ++ ·))) fun _ => done .normal))
+          (execB env fuel o) := by
+  simp [execS]
+
+/-- `yield`: the `#yield` event with the value, the suspension, then the `#receive` event with what was sent -/
+theorem C06_yield_then_receive (env : Env W HS) (e : Expr) :
+    evalE env (.yield (some e)) = (do
+      let x ← evalE env e
+      let y ← hook env "#yield" (some exitAnn) x
+      let r ← doYield env y
+      hook env "#receive" (some enterAnn) r) := by
+  simp [evalE]
+
+/-- when the driver throws into the generator (or closes it) nothing is received -/
+theorem C06_throw_no_receive (env : Env W HS) (y : Val) (st : St W HS) (e : Val) (rest : List GenCmd)
+    (h : st.inp = .throw e :: rest) : (doYield env y st).1 = .err e := by
+  unfold doYield
+  simp [h]
+
+theorem C06_return_value_event (env : Env W HS) (fuel : Nat) (e : Expr) :
+    execS env fuel (.ret (some e)) =
+      stepM (do let x ← evalE env e; hook env "#value" none x) fun r => done (.ret r) := by
+  simp [execS]
+
+/-- falling off the end is `return None`: the rewritten function and the reference semantics both run the
+    body with that statement appended -/
+theorem C06_fall_off_is_return_none (f : FunDef) (h : endsWithReturn (hoistB f.body).1 = false) :
+    bodyWithReturn f = (hoistB f.body).1 ++ [.ret none] := by
+  unfold bodyWithReturn
+  rcases hh : hoistB f.body with ⟨b, d⟩
+  rw [hh] at h
+  simp only at h ⊢
+  simp [h]
+
+/-- `def f(a): for i in T(1, 'tuple', 2): b = i` followed by `return a` -/
+def sample : FunDef :=
+  { name := "f", params := [{ name := "a", ann := none }], defaults := [], returns := none, doc := none,
+    body := [.for (.name "i") (.call (.name "T") [.int 1, .str "tuple", .int 2]) [.assign [.name "b"] (.name "i")] [],
+             .ret (some (.name "a"))], freevars := [] }
+
+def sampleState : St PyLite.World PyLite.HState :=
+  { loc := initLoc ["a"] [.int 5], w := {}, hs := {}, inp := [], out := [], cur := [] }
+
+/-- a test: the events of a loop of two iterations, everything captured, through the rewritten code -/
+theorem C06_example_brackets :
+    ((runInstr (ctxOf PyLite.host [⟨none, none⟩] Ptera.Props.C06.sample 5).envI 5
+        (instrument [⟨none, none⟩] Ptera.Props.C06.sample) Ptera.Props.C06.sampleState).2.hs.events.map (·.name))
+      = ["#enter", "T", "a", "#loop_i", "i", "b", "#endloop_i", "#loop_i", "i", "b", "#endloop_i", "#value", "#exit"] := by
+  decide +kernel
+
 end Ptera.Props.C06
